@@ -464,12 +464,14 @@ PROPS['C20'] = dict(
                'The histories include the stacking constructor (valid and invalid requests; a stack of identical tables must be constant along the new dimension).',
     level_note=NOTE_COMMON + '',
     technique='runtime monitor: checking allocator ledger + abstract state model + allocation-failure enumeration, under ASan/UBSan/LSan',
-    targets=[T('h_mem.cpp', 'asan')],
-    passes=lambda tier, sc: [Pass('asan', 'h_mem.asan', 'C20', n(tier, 320, 3000, sc), env=LEAK_ENV, stall_s=600)],
+    targets=[T('h_mem.cpp', 'asan'), T('h_write.cpp', 'prod')],
+    passes=lambda tier, sc: [Pass('asan', 'h_mem.asan', 'C20', n(tier, 320, 3000, sc), env=LEAK_ENV, stall_s=600),
+                             # every position of a failing read: fread interposed under cfitsio (same mechanism as C08)
+                             Pass('readfault', 'h_write.prod', 'C20read', n(tier, 36, 360, sc), chunk=1, stall_s=600)],
     level='fault_enumeration',
     rule='case = one history, executed once without faults and then once per sampled allocation index with that allocation failing; distinct_nontrivial counts distinct executed (history, fault position) pairs',
     assumptions=ASSUME_COMMON,
-    require={'any': {'histories': 100, 'faulted-histories': 2000, 'faults-fired': 1500, 'histories-with-one-arena-per-object': 30, 'operator-new-faults-fired': 1500, 'stacked-table-evaluations': 300, 'move-assignments-between-arenas:storage-held': 8, 'write_key:first-key-on-a-populated-table-without-keys': 2}},
+    require={'any': {'histories': 100, 'faulted-histories': 2000, 'faults-fired': 1500, 'histories-with-one-arena-per-object': 30, 'operator-new-faults-fired': 1500, 'stacked-table-evaluations': 300, 'read-fault:faults-fired': 800, 'read-fault:reads-reporting-failure': 500, 'move-assignments-between-arenas:storage-held': 8, 'write_key:first-key-on-a-populated-table-without-keys': 2}},
 )
 
 
